@@ -40,7 +40,8 @@ TextForms == { [s |-> "{txt}",           slot |-> <<>>],
                [s |-> "{a\nb${1}c}",     slot |-> <<F(1, "")>>],
                [s |-> "{${1:a} x\ny}",   slot |-> <<F(1, "a")>>],                    \* the field is on an earlier line than the last
                [s |-> "{${2:p}\nq${1}}", slot |-> <<F(2, "p"), F(1, "")>>],
-               [s |-> "{c\rd}",          slot |-> <<>>] }
+               [s |-> "{c\rd}",          slot |-> <<>>],
+               [s |-> "{a\n\nb}",        slot |-> <<>>] }                           \* an empty line in the middle of a text
 Names == {"x", "y"}
 
 Init == abbr = "" /\ ntok = 0 /\ expect = "item" /\ frames = << <<>> >> /\ pend = NoPend
